@@ -73,10 +73,25 @@ theorem C14_close_returns (s s' : CS) (h : step s .closeReturn = some s') :
     s.st = .closed ∧ (s.recv = none ∨ s.closeFromRecv = true) ∧ (∀ c, s.conn = some c → c ∈ s.writerClosed) ∧ s'.closeReturned = true := by
   obtain ⟨t, ht, rfl⟩ := L13.step_eq_some.1 h
   simp only [stepCore, L13.guard_eq_some, Bool.and_eq_true, Bool.or_eq_true, decide_eq_true_eq, Option.isNone_iff_eq_none] at ht
-  obtain ⟨⟨⟨⟨h1, h2⟩, h3⟩, h4⟩, rfl⟩ := ht
+  obtain ⟨⟨⟨⟨⟨h1, h2⟩, h3⟩, -⟩, h4⟩, rfl⟩ := ht
   refine ⟨h2, h3, ?_, rfl⟩
   intro c hc
   simpa [hc] using h4
+
+/-- … and the reconnect task has ended (close() cancels it), unless close() was called from inside it — from the status
+callback its connect() runs — in which case it is the caller and makes no further attempt (`C14_no_attempt_after_closed`) -/
+theorem C14_close_ends_reconnect (s s' : CS) (h : step s .closeReturn = some s') :
+    s.reconn = 0 ∨ s.closeFromReconn = true := by
+  obtain ⟨t, ht, rfl⟩ := L13.step_eq_some.1 h
+  simp only [stepCore, L13.guard_eq_some, Bool.and_eq_true, Bool.or_eq_true, decide_eq_true_eq, Option.isNone_iff_eq_none] at ht
+  obtain ⟨⟨⟨⟨⟨-, -⟩, -⟩, h5⟩, -⟩, rfl⟩ := ht
+  exact h5
+
+/-- a reconnect task that still gets to its connect() call once the client is CLOSED makes no attempt: the call returns at once -/
+theorem C14_reconnect_after_closed_is_inert (s s' : CS) (hc : s.st = .closed) (h : step s .reconnCall = some s') :
+    step s' .implStart = none := by
+  have : s'.st = .closed := C14_closed_absorbing s s' _ hc h
+  exact C14_no_attempt_after_closed s' this
 
 /-- after a close() from inside the receive task, that task performs no further read iteration (it can only exit),
 in every continuation the model accepts -/
